@@ -831,6 +831,36 @@ def stateful_thread_correspondence(chk, n):
             chk.feature(f"stateful-ending:{s['ending']}")
         if mo != real:
             chk.disagreement("stateful-thread:execute_state_machine_loop", suites, mo, real)
+        # failing-input search: the suite bracket on what the real loop put (mirror of Stateful.suitesWf)
+        prop = getattr(chk, "prop", "C11")
+        open_suite, bad = None, None
+        for e in real:
+            if e["k"] == "suiteStarted":
+                if open_suite is not None:
+                    bad = "a suite was opened while another one was still open"
+                open_suite = e["n"]
+            elif e["k"] == "suiteFinished":
+                if open_suite != e["n"]:
+                    bad = "SuiteFinished for a suite that was not (or no longer) open"
+                open_suite = None
+            elif e["k"] in ("scenStarted", "scenFinished") and open_suite is None:
+                bad = "scenario event outside a suite"
+        if open_suite is not None:
+            bad = "a suite was never closed"
+        if bad:
+            chk.violation(f"{prop}:execute_state_machine_loop:suite-bracket-broken", bad, {"suites": suites, "events": real})
+        ran = []
+        for sc in suites:
+            if sc["interruptedAtStart"]:
+                break
+            ran.append(sc)
+            if not (sc["ending"] in ("failureGroup", "flaky") and not sc["limitReached"]):
+                break
+        failing_end = any(sc["ending"] in ("failureGroup", "flaky", "otherException") for sc in ran)
+        if failing_end and not any(e["k"] == "suiteFinished" and e["st"] in ("failure", "error") for e in real):
+            chk.violation(f"{prop}:execute_state_machine_loop:failed-run-not-reflected-in-any-suite-status",
+                          "a state-machine run ended with a failure/error but no suite was closed as FAILURE/ERROR",
+                          {"suites": suites, "events": real})
         yield suites, real
 
 
